@@ -48,7 +48,10 @@ def tlc(name, module, cfg_text, workers=None, timeout=1800, env_extra=None, jvm=
     if workers is None:
         workers = min(NCPU, 12)
     jvm = jvm or ["-Xss512m", "-XX:+UseParallelGC"]
-    cmd = ["java"] + jvm + ["-cp", "/opt/veriftools/tla/tla2tools.jar:/opt/veriftools/tla/CommunityModules-deps.jar",
+    jtmp = os.path.join(wd, "jtmp")      # keep the JVM's scratch files out of /tmp
+    os.makedirs(jtmp, exist_ok=True)
+    cmd = ["java"] + jvm + ["-Djava.io.tmpdir=" + jtmp,
+                            "-cp", "/opt/veriftools/tla/tla2tools.jar:/opt/veriftools/tla/CommunityModules-deps.jar",
                             "tlc2.TLC", "-workers", str(workers), "-metadir", os.path.join(wd, "md"), "-cleanup",
                             "-noGenerateSpecTE", "-config", cfg]
     if simulate:
